@@ -43,7 +43,11 @@ TwoCases == \A s1 \in Slices : \A s2 \in Short :
 OneCases == \A s \in Slices :
     Emit([fn |-> "one", s |-> s, a |-> <<>>, out |-> [unique |-> UniqueDef(s), uniquekey |-> UniqueKeyDef(s), filter |-> FilterDef(s),
                                                      index |-> [e \in 1..4 |-> IndexDef(s, e)]]])
-ArgCases == \A s \in Slices : \A p \in -2..Len(s) + 2 : \A q \in -2..Len(s) + 2 :
+\* Huge stands for the largest int (the runner passes math.MaxInt / math.MinInt for +Huge / -Huge): arguments far beyond
+\* the length must be clamped like any other oversized argument, without overflowing on the way
+Huge == 1073741824
+ArgVals(s) == (-2..Len(s) + 2) \cup {Huge, Huge - 1, -Huge}
+ArgCases == \A s \in Slices : \A p \in ArgVals(s) : \A q \in ArgVals(s) :
     Emit([fn |-> "args", s |-> s, a |-> <<p, q>>, out |-> [sub |-> SubDef(s, p, q), copy |-> CopyDef(s, p, q), chunk |-> ChunkDef(s, p), remove |-> RemoveDef(s, p)]])
 ASSUME TwoCases
 ASSUME OneCases
